@@ -124,13 +124,32 @@ theorem unequal_cutoffs_break_ratio :
 
 /-! ## 3. A swap moves the configuration and nothing else -/
 
-/-- One pair: if accepted, position `a` keeps its Hamiltonian, β, offset, RNG, bond-weight table and
-cutoff field and receives `b`'s (state, operator string), and vice versa; if rejected nothing changes. -/
+/-- One pair: if accepted, the two replicas go through `swap_manager_and_state`; if rejected nothing
+changes. `swap_manager_and_state` keeps Hamiltonian, β, offset, RNG and bond-weight table of each
+side, exchanges (state, operator string) and raises both cutoff fields to the larger one — which
+inside a tempering step (cutoffs already equal, strings already that long) is the plain exchange. -/
 theorem swap_pair_spec {H : Type} (I : Iface H) (a b : Replica H) (u : Rat) (ev : Bool) :
     (u < pSwap I a b ev →
-      swapOnChunks I a b u ev = ({ a with cfg := b.cfg }, { b with cfg := a.cfg }, true)) ∧
-    (¬ u < pSwap I a b ev → swapOnChunks I a b u ev = (a, b, false)) :=
-  ⟨swapOnChunks_accepted I a b u ev, swapOnChunks_rejected I a b u ev⟩
+      swapOnChunks I a b u ev = ((swapGraphs a b).1, (swapGraphs a b).2, true)) ∧
+    (¬ u < pSwap I a b ev → swapOnChunks I a b u ev = (a, b, false)) ∧
+    ((swapGraphs a b).1.frame = a.frame ∧ (swapGraphs a b).2.frame = b.frame) ∧
+    (∀ m, a.cutoff = m → b.cutoff = m → m ≤ a.cfg.slots.length → m ≤ b.cfg.slots.length →
+      swapGraphs a b = ({ a with cfg := b.cfg }, { b with cfg := a.cfg })) :=
+  ⟨swapOnChunks_accepted I a b u ev, swapOnChunks_rejected I a b u ev,
+   ⟨by simp [swapGraphs, Replica.setCutoff, Replica.frame],
+    by simp [swapGraphs, Replica.setCutoff, Replica.frame]⟩,
+   fun m ha hb hla hlb => swapGraphs_eq_exchange a b m ha hb hla hlb⟩
+
+/-- Outside a tempering step (public `swap_graphs` on samplers with different cutoffs): both cutoff
+fields become the maximum and each received string is padded to it — no sampler is left with a
+cutoff smaller than the string it holds. -/
+theorem swapGraphs_cutoffs {H : Type} (a b : Replica H) :
+    (swapGraphs a b).1.cutoff = max a.cutoff b.cutoff ∧
+    (swapGraphs a b).2.cutoff = max a.cutoff b.cutoff ∧
+    max a.cutoff b.cutoff ≤ (swapGraphs a b).1.cfg.slots.length ∧
+    max a.cutoff b.cutoff ≤ (swapGraphs a b).2.cfg.slots.length ∧
+    (swapGraphs a b).1.cfg.state = b.cfg.state ∧ (swapGraphs a b).2.cfg.state = a.cfg.state :=
+  ⟨rfl, rfl, padTo_length_ge _ _, padTo_length_ge _ _, rfl, rfl⟩
 
 /-- Whole step: every ladder position keeps (H, β, offset, rng, bond-weight table); the
 configurations after the step are a permutation of the (cutoff-padded) configurations before. -/
@@ -172,12 +191,7 @@ theorem cutoffs_equal_after_step {H : Type} (I : Iface H) (c : Container H)
   rw [if_neg h]
   refine ⟨?_, fun r hr => le_maxCutoff hr, ?_, ?_⟩
   · intro r hr
-    have : r.cutoff ∈ (stepBody I (performSwaps I) c).1.graphs.map (·.cutoff) :=
-      List.mem_map_of_mem hr
-    rw [sp.2.1] at this
-    simp only [List.mem_map] at this
-    obtain ⟨_, _, e⟩ := this
-    exact e.symm
+    exact (sp.2.1 r hr).1
   · rcases maxCutoff_attained c.graphs 0 with h0 | ⟨r, hr, e⟩
     · obtain ⟨a, ha⟩ := List.exists_mem_of_length_pos (by omega : 0 < c.graphs.length)
       refine ⟨a, ha, ?_⟩
